@@ -652,7 +652,8 @@ func (en Engine) converse(p0 *Plan, c *core.Ctx) (verdict *core.Verdict) {
 	case "val":
 		ui.RequestValue = func(name, prompt string, secret bool) (string, error) { return "answer to " + prompt, nil }
 	case "err":
-		ui.RequestValue = func(name, prompt string, secret bool) (string, error) { return "", errors.New("sim: no tty") }
+		// a failing prompt may still hand back what was typed so far: none of it may reach the plugin
+		ui.RequestValue = func(name, prompt string, secret bool) (string, error) { return "partial", errors.New("sim: no tty") }
 	}
 	switch p.UI.Confirm {
 	case "yes", "no":
